@@ -3,13 +3,16 @@ package c12
 
 import (
 	"fmt"
+	"sort"
 	"strconv"
 	"testing"
+	"time"
 
 	"github.com/gdamore/tcell/v2"
 	"github.com/gdamore/tcell/v2/terminfo"
 	"pgregory.net/rapid"
 
+	"verifharness/internal/faketty"
 	"verifharness/internal/inref"
 	"verifharness/internal/pbt"
 )
@@ -24,6 +27,8 @@ type Case struct {
 	W       int                 `json:"w"`
 	H       int                 `json:"h"`
 	Reports []inref.MouseReport `json:"reports"`
+	Cuts    []int               `json:"cuts,omitempty"`  // byte offsets at which a read ends (third pass)
+	Calls   []string            `json:"calls,omitempty"` // live pass: EnableMouse re-programming before report i ("" none, "all", "drag", "buttons")
 }
 
 func entry(name string) (*terminfo.Terminfo, error) {
@@ -34,7 +39,6 @@ func entry(name string) (*terminfo.Terminfo, error) {
 	cp := *ti
 	return &cp, nil
 }
-
 
 // prop sends the reports one at a time through the production parser and
 // compares each resulting event with the reference decoder.
@@ -74,10 +78,17 @@ func propOn(in *tcell.VerifInput, c Case) error {
 	}
 	// the same reports arriving in ONE read must decode to the same events (a
 	// report must consume exactly its own bytes, whatever its introducer)
-	return propOneRead(c)
+	if err := propReads(c, nil); err != nil {
+		return err
+	}
+	if len(c.Cuts) > 0 {
+		// ... and in reads that end inside reports
+		return propReads(c, c.Cuts)
+	}
+	return nil
 }
 
-func propOneRead(c Case) error {
+func propReads(c Case, cuts []int) error {
 	ti, err := entry(c.Entry)
 	if err != nil {
 		return err
@@ -90,22 +101,115 @@ func propOneRead(c Case) error {
 	for _, r := range c.Reports {
 		all = append(all, r.Bytes()...)
 	}
-	evs, left := in.Scan(all, false)
+	var evs []tcell.Event
+	prev := 0
+	for _, cut := range cuts {
+		if cut > prev && cut < len(all) {
+			e, _ := in.Scan(all[prev:cut], false)
+			evs = append(evs, e...)
+			prev = cut
+		}
+	}
+	e, _ := in.Scan(all[prev:], false)
+	evs = append(evs, e...)
 	more, left := in.Scan(nil, true)
 	evs = append(evs, more...)
 	got := inref.FromAll(evs)
 	var st inref.MouseState
 	if len(got) != len(c.Reports) || left != 0 {
-		return fmt.Errorf("%d reports sent in one read (%q) decode to %d events %s with %d bytes left", len(c.Reports), all, len(got), inref.Show(got), left)
+		return fmt.Errorf("%d reports sent in reads ending at %v (one read if empty) (%q) decode to %d events %s with %d bytes left", len(c.Reports), cuts, all, len(got), inref.Show(got), left)
 	}
 	for i, r := range c.Reports {
 		want := st.Decode(r, c.W, c.H)
 		g := got[i]
 		if g.Kind != "mouse" || g.X != want.X || g.Y != want.Y || tcell.ModMask(g.Mod) != want.Mod || (want.ButtonsSet && tcell.ButtonMask(g.Btn) != want.Buttons) {
-			return fmt.Errorf("report %d %+v of %d sent in one read: decoded %s, want position (%d,%d) mod %d buttons %#x(set=%v)", i, r, len(c.Reports), g, want.X, want.Y, want.Mod, int(want.Buttons), want.ButtonsSet)
+			return fmt.Errorf("report %d %+v of %d sent in reads ending at %v (one read if empty): decoded %s, want position (%d,%d) mod %d buttons %#x(set=%v)", i, r, len(c.Reports), cuts, g, want.X, want.Y, want.Mod, int(want.Buttons), want.ButtonsSet)
 		}
 	}
 	return nil
+}
+
+// liveProp: the history through a real screen (fake tty, the library's
+// goroutines), one report per read, each event awaited with PollEvent; between
+// reports the application may re-program mouse tracking with EnableMouse (the
+// idiom of asking for drag events only while a button is down). The button the
+// terminal is following stays held whatever the application asks to be told.
+func liveProp(c Case) error {
+	ti, err := entry(c.Entry)
+	if err != nil {
+		return err
+	}
+	ti.PadChar = ""
+	tty := faketty.New(c.W, c.H)
+	s, err := tcell.NewTerminfoScreenFromTtyTerminfo(tty, ti)
+	if err != nil {
+		return fmt.Errorf("harness: %v", err)
+	}
+	if err := s.Init(); err != nil {
+		return fmt.Errorf("harness: Init: %v", err)
+	}
+	fin := make(chan struct{})
+	defer func() {
+		go func() { s.Fini(); close(fin) }()
+		select {
+		case <-fin:
+		case <-time.After(10 * time.Second):
+		}
+	}()
+	s.EnableMouse()
+	next := func() (inref.Ev, bool) {
+		deadline := time.Now().Add(5 * time.Second)
+		for time.Now().Before(deadline) {
+			if !s.HasPendingEvent() {
+				time.Sleep(50 * time.Microsecond)
+				continue
+			}
+			ev := s.PollEvent()
+			if _, ok := ev.(*tcell.EventMouse); ok {
+				return inref.From(ev), true
+			}
+			if _, ok := ev.(*tcell.EventKey); ok {
+				return inref.From(ev), true
+			}
+		}
+		return inref.Ev{}, false
+	}
+	var st inref.MouseState
+	for i, r := range c.Reports {
+		call := ""
+		if i < len(c.Calls) {
+			call = c.Calls[i]
+		}
+		switch call {
+		case "all":
+			s.EnableMouse()
+		case "drag":
+			s.EnableMouse(tcell.MouseButtonEvents | tcell.MouseDragEvents)
+		case "buttons":
+			s.EnableMouse(tcell.MouseButtonEvents)
+		}
+		tty.Feed(r.Bytes())
+		g, ok := next()
+		want := st.Decode(r, c.W, c.H)
+		if !ok {
+			return fmt.Errorf("live: report %d %+v (bytes %q) produced no event within 5s", i, r, r.Bytes())
+		}
+		if g.Kind != "mouse" || g.X != want.X || g.Y != want.Y || tcell.ModMask(g.Mod) != want.Mod || (want.ButtonsSet && tcell.ButtonMask(g.Btn) != want.Buttons) {
+			return fmt.Errorf("live (real screen %dx%d, EnableMouse calls %q before the reports): report %d %+v after %v: delivered %s, want position (%d,%d) mod %d buttons %#x(set=%v)", c.W, c.H, c.Calls, i, r, c.Reports[:i], g, want.X, want.Y, want.Mod, int(want.Buttons), want.ButtonsSet)
+		}
+	}
+	return nil
+}
+
+func genLive(t *rapid.T) Case {
+	c := genCase(t)
+	c.Cuts = nil
+	for i := range c.Reports {
+		// 8-bit CSI and over-long forms need the escape timer in the live pipeline; keep to what decodes at once
+		c.Reports[i].EightBit = false
+		c.Calls = append(c.Calls, rapid.SampledFrom([]string{"", "", "", "all", "drag", "buttons"}).Draw(t, "call"))
+	}
+	return c
 }
 
 func propOn1(in *tcell.VerifInput, c Case) error {
@@ -229,6 +333,15 @@ func genCase(t *rapid.T) Case {
 		}
 		c.Reports = append(c.Reports, r)
 	}
+	total := 0
+	for _, r := range c.Reports {
+		total += len(r.Bytes())
+	}
+	ncuts := rapid.IntRange(0, 4).Draw(t, "ncuts")
+	for i := 0; i < ncuts && total > 1; i++ {
+		c.Cuts = append(c.Cuts, rapid.IntRange(1, total-1).Draw(t, "cut"))
+	}
+	sort.Ints(c.Cuts)
 	return c
 }
 
@@ -396,7 +509,19 @@ func TestProp(t *testing.T) {
 	pbt.Describe("single-report: exhaustive sweep (see exhaustive_subspaces) through the production parser (synchronous verif hook) on entries with mouse support; histories: rapid sequences of 1-12 press/motion/wheel/release reports (SGR or legacy X11 form, modifiers, coordinates inside/edge/beyond/negative/multi-digit, screen 1x1..200x60) on one decoder instance, each event compared with a reference xterm mouse decoder with press/drag/release state. Non-trivial = history containing press -> drag -> release (sweep: motion report after a press); distinct = hash of the case.",
 		"button codes xterm assigns to wheel left/right (66,67) and buttons 8-11 (bit 7), and wheel codes carrying the motion bit, are outside the statement's list: only position and modifiers are asserted for them",
 		"legacy X11 reports carry code+32, x+32, y+32 as single bytes, so only values <= 223 exist in that form",
-		"histories are decoded twice: one report per read, and all reports in a single read")
+		"histories are decoded three times: one report per read, all reports in a single read, and in reads ending at random byte offsets inside reports (no timeout in between)",
+		"live-histories: the same histories through a real screen on a fake tty, one report per read awaited with PollEvent, with EnableMouse(all / buttons+drag / buttons) calls between reports: the held button survives re-programming of the tracking modes")
 	sweep(t)
 	pbt.Check(t, "histories", pbt.Pick(30000, 400000), pbt.Spec[Case]{Gen: genCase, Prop: prop, NonTrivial: nonTrivial, Classes: classes, Known: known})
+	pbt.Check(t, "live-histories", pbt.Pick(150, 3000), pbt.Spec[Case]{Gen: genLive, Prop: liveProp, NonTrivial: func(c Case) bool {
+		if !nonTrivial(c) {
+			return false
+		}
+		for _, x := range c.Calls {
+			if x != "" {
+				return true
+			}
+		}
+		return false
+	}})
 }
